@@ -75,6 +75,12 @@ Section SynExt.
     - destruct x as [v ch| | |]; try discriminate. cbn [tcond] in H.
       destruct (tattr sc sel root st v ch) as [a st1| | |] eqn:E1; try discriminate. injection H as _ <-.
       eapply (toperand_ext (OAttr v ch)); eauto.
+    - destruct it0 as [v ch| | |]; try discriminate.
+      apply andb_true_iff in Hc. destruct Hc as [Hc1 Hc2].
+      cbn [tcond] in H. unfold tcontains in H.
+      destruct (is_rel sc vars (OList cs0) || is_rel sc vars (OAttr v ch)); try discriminate.
+      destruct (tattr sc sel root st v ch) as [a st1| | |] eqn:E1; try discriminate.
+      injection H as _ <-. eapply (toperand_ext (OAttr v ch)); eauto.
   Qed.
 End SynExt.
 
@@ -213,6 +219,7 @@ Section Syn2.
       + simpl. intros Hh. apply orb_true_iff in Hh. destruct Hh; auto.
       + intros p0 Hp. destruct a, b; simpl in Hp; try discriminate; injection Hp as <-; simpl;
           rewrite ?(B1 _ eq_refl), ?(B2 _ eq_refl); auto.
+    - destruct (ATOM _ _ _ _ _ Hc Hs H) as [A1 [A2 A3]]. repeat split; auto. simpl. discriminate.
     - destruct (ATOM _ _ _ _ _ Hc Hs H) as [A1 [A2 A3]]. repeat split; auto. simpl. discriminate.
   Qed.
 End Syn2.
@@ -395,6 +402,8 @@ Section Data2.
       intros more'. rewrite (V2 more'). rewrite (V1 (m2 ++ more')). rewrite <- (app_assoc (env ++ m1) m2 more').
       simpl. now rewrite tv_true_or.
     - (* a column as condition *)
+      apply ATOM; auto.
+    - (* membership in a literal set *)
       apply ATOM; auto.
   Qed.
 End Data2.
@@ -612,6 +621,7 @@ Proof.
     destruct (tcond2_struct sc sel root v2 c2 Hne Hrel p1 true st a st1 Hc1 Hs T1) as [S1 _].
     destruct (IH2 Hc2 true st1 S1) as [b [st2 T2]]. rewrite T2. eauto.
   - destruct (tcond_total sc sel root _ Hv _ Hc io st) as [p [st' T]]. eauto.
+  - destruct (tcond_total sc sel root _ Hv _ Hc io st) as [p [st' T]]. eauto.
 Qed.
 Theorem f07j_accepted sc q w : f07j sc q w = true -> exists s, translate sc q = TOk s.
 Proof.
@@ -724,10 +734,25 @@ Proof. vm_compute; reflexivity. Qed.
 Theorem rejects_setof sc q : q_setof q = true -> translate sc q = TReject.
 Proof. intros H. unfold translate. now rewrite H. Qed.
 
-Lemma refuted_setlit :       (* in_(p.x, {1, 2}): the set is bound as one parameter -> execution fails; memory answers *)
-  model_res Wit.sc WitJ.q_inset Wit.w = Some (Err TypeErr) /\ answers Wit.sc WitJ.q_inset Wit.w = Ok [1].
-Proof. split; vm_compute; reflexivity. Qed.
-Lemma refuted_namedvar :     (* entity(f, b == f.parent), b : Body (has a name): WHERE false; the other order is rejected *)
-  model_res Wit.sc WitJ.q_namedvar Wit.w = Some (Ok []) /\ answers Wit.sc WitJ.q_namedvar Wit.w = Ok [10; 10; 11; 11] /\
-  translate Wit.sc WitJ.q_namedvar_right = TReject.
+(* repaired (313603b): in_(p.x, {1, 2}) is IN (1, 2), inside F07 *)
+Lemma fixed_setlit :
+  f07 Wit.sc WitJ.q_inset Wit.w = true /\ model_res Wit.sc WitJ.q_inset Wit.w = Some (Ok [1]) /\ answers Wit.sc WitJ.q_inset Wit.w = Ok [1].
 Proof. repeat split; vm_compute; reflexivity. Qed.
+(* repaired (99b53a0): a variable over mapped entities as operand is rejected in either order *)
+Lemma fixed_namedvar :
+  translate Wit.sc WitJ.q_namedvar = TReject /\ translate Wit.sc WitJ.q_namedvar_right = TReject.
+Proof. split; vm_compute; reflexivity. Qed.
+Theorem rejects_var_operand sc q op l r v :
+  q_cond q = Some (CCmp op l r) -> (l = OVar v \/ r = OVar v) -> forall s, translate sc q <> TOk s.
+Proof.
+  intros Hc Hv s. unfold translate. destruct (q_setof q); try discriminate. rewrite Hc.
+  destruct (assoc (q_sel q) (q_vars q)) as [root|]; try discriminate.
+  cbn [tcond]. unfold tcmp.
+  assert (E : teqjoin sc (q_vars q) root false jm0 op l r = None).
+  { destruct Hv as [-> | ->]; destruct op; try reflexivity; destruct l; reflexivity. }
+  rewrite E. destruct (negb (rel_check sc (q_vars q) (eqne op) l r)); try discriminate.
+  destruct Hv as [-> | ->].
+  - cbn [toperand]. destruct (assoc v (q_vars q)); discriminate.
+  - destruct (toperand sc (q_vars q) (q_sel q) root jm0 l) as [a st1| | |]; try discriminate.
+    cbn [toperand]. destruct (assoc v (q_vars q)); discriminate.
+Qed.
